@@ -354,7 +354,7 @@ var baseTable = FunctionTable{
 	"round": Function{
 		impl.Round,
 		0,
-		0,
+		1,
 		false,
 	},
 	"sqrt": Function{
